@@ -11,7 +11,9 @@ containers, helper results and (via the call graph) parameters.
               blessed helper, or an unwrap accumulator of the same width takes part (extended numbers)
   C17-TRUTHY  a serial value is never tested for truthiness (0 is a valid serial number)
   C17-HELPERS the blessed helpers use the right moduli / half-moduli (finite evaluation on boundary pairs)
-Does not decide: helper algebra for all pairs, end-to-end equality under shifted origins.
+  C17-SHIFT   (rules/C17shift.py) origin-shift equivalence by evaluation: SCTP receive path over arrival permutations, FORWARD-TSN, jitter
+              buffer, NACK generator and receiver statistics give identical results at small origins and just below each wrap
+Does not decide: helper algebra for all pairs; end-to-end equality under shifted origins beyond the enumerated scenarios.
 """
 from __future__ import annotations
 
